@@ -4,7 +4,10 @@
    op = "run"   : the command list, the mode and what was observed -- status,
                   whether the task ended by an exception, whether an exception
                   escaped the scheduler, return codes, and the tokens found in
-                  the capture files (echo lines on stderr are not tokens);
+                  the capture files (echo lines on stderr are not tokens); when the
+                  task is one of a family of tasks with related names run in the
+                  same roots, the observation is made after all of them have run
+                  and carries the capture files of the task and of the others;
    op = "names" : the names of the tasks run one after the other, the indices
                   of those that were accepted, the directory each of them
                   reported and the file system found below the output root
@@ -33,13 +36,15 @@ ObsOf(c) == [status |-> c.obs.status, raised |-> c.obs.raised, escaped |-> c.obs
 
 RunFailing(c) ==
    LET cs == CmdsOf(c)  o == ObsOf(c) IN
-   {cl \in {"DoneIffAllZero", "FailedOtherwise", "StopAtFirst", "CodesOfRun", "Capture", "NeverEscapes"} :
+   {cl \in {"DoneIffAllZero", "FailedOtherwise", "StopAtFirst", "CodesOfRun", "Capture", "NeverEscapes", "OwnFiles"} :
        \/ cl = "DoneIffAllZero" /\ ~R!DoneIffAllZero(cs, o)
        \/ cl = "FailedOtherwise" /\ ~R!FailedOtherwise(cs, c.mode, o)
        \/ cl = "StopAtFirst" /\ ~R!StopAtFirst(cs, o)
        \/ cl = "CodesOfRun" /\ ~R!CodesOfRun(cs, o)
        \/ cl = "Capture" /\ ~R!Capture(cs, o)
-       \/ cl = "NeverEscapes" /\ ~R!NeverEscapes(o)}
+       \/ cl = "NeverEscapes" /\ ~R!NeverEscapes(o)
+       (* a task of a family run in the same roots: its capture files (numbered by the harness) and those of the others *)
+       \/ cl = "OwnFiles" /\ ~R!OwnFiles(<<Set(c.obs.files), Set(c.obs.others)>>)}
 
 (* observed directories: c.dirs[j] = <<>> (task j rejected) or <<path>> *)
 ObsAccepted(c) == Set(c.accepted)
@@ -93,6 +98,7 @@ C19_DirBelowRoot == i > 1 => R!C19_DirBelowRoot
 C19_DirInjective == i > 1 => R!C19_DirInjective
 C19_DirNotCapture == i > 1 => R!C19_DirNotCapture
 C19_Rejected == i > 1 => R!C19_Rejected
+C19_OwnFiles == i > 1 => R!C19_OwnFiles
 
 Post == /\ TLCGet("stats").diameter = NCases + 1
         /\ JsonSerialize(IOEnv.VERIF_OUT, [bad |-> TLCGet(1)])
